@@ -102,6 +102,8 @@ def run_case(case):
         qd = c.startPosition.query.position - p.endPosition.query.position
         if rd == 0 and qd == 0 and j != 0:
             bad.append('contiguous_join_scores_zero')
+        if mult == 0 and j not in (0, -math.inf):
+            bad.append('join_score_scales_with_the_multiplier')
     return case, sorted(set(bad)), len(chain)
 
 
@@ -130,6 +132,17 @@ def cases(tier, seed):
     for combo in itertools.combinations(POOL, 4):
         out.append((tuple(combo), False, 1.0, 1))
         out.append((tuple(combo) + (None,), True, 0.5, 0))
+    # boundary lattice of the join score: unit coordinates, odd and even lengths (0..7), overlaps around half of the shorter
+    # segment on each axis independently, multipliers incl. 0
+    k = 0
+    for lp in range(0, 8):
+        for lc in range(0, 8):
+            for ovr in range(-1, 5):
+                for ovq in range(-1, 5):
+                    k += 1
+                    prev = (10, 10 + lp, 10, 10 + lp, 1000)
+                    cur = (10 + lp - ovr, 10 + lp - ovr + lc, 10 + lp - ovq, 10 + lp - ovq + lc, 1000)
+                    out.append(((prev, cur), k % 2 == 0, (0, 0.5, 1.0, 2.0)[k % 4], (k // 4) % 2))
     nrand = 1500 if tier == 'quick' else 20000
     for _ in range(nrand):
         n = rnd.randint(2, 6)
@@ -154,7 +167,7 @@ def bounded(repo, tier, seed):
     for r in res:
         for case, bad in r[2]:
             fid = GS if bad[0] in ('join_score_never_positive', 'minus_infinity_exactly_when_overlap_exceeds_half_of_the_shorter',
-                                   'contiguous_join_scores_zero') else CH
+                                   'contiguous_join_scores_zero', 'join_score_scales_with_the_multiplier') else CH
             k = f"{fid}::ensures::{bad[0]}"
             v = dict(key=k, blame=fid, input=dict(segments=[list(s) if s else None for s in case[0]], reverse=case[1],
                                                   multiplier=case[2], variant=case[3]), observed=bad, required='C14 statement')
@@ -162,7 +175,7 @@ def bounded(repo, tier, seed):
                 viol[k] = v
     return result(sum(r[0] for r in res), sum(r[1] for r in res),
                   "segment sets of 1-6 segments (a pool of 10 geometries with overlaps, gaps, off-diagonal and contained segments; random sets; with and "
-                  "without empty segments), both strands, both join-score variants, multipliers 0.5/1/2; the chain total is compared with the maximum over "
+                  "without empty segments), both strands, both join-score variants, multipliers 0/0.5/1/2; a unit-coordinate lattice of segment pairs (lengths 0-7, overlaps -1..4 on each axis) around the half-overlap boundary; the chain total is compared with the maximum over "
                   "ALL order-respecting subsets (exhaustive 2^n enumeration); non-trivial = chain of >= 2 segments",
                   [dict(segments=[list(s) if s else None for s in c[0]], reverse=c[1], multiplier=c[2], variant=c[3]) for c in allc[300:303]],
                   list(viol.values())[:5], exhaustive=False, bounds="<= 6 segments per set")
